@@ -34,6 +34,10 @@ def plan(tier, seed):
     return [{"tier": tier, "seed": seed, "shard": i, "nshards": NSHARDS} for i in range(NSHARDS)]
 
 
+def _o(order):
+    return order if len(order) <= 16 else f"{order[:8]}...({len(order)} items)...{order[-4:]}"
+
+
 def drain_points(n, mode, rng):
     if mode == 0:
         return set(range(n))
@@ -70,7 +74,7 @@ def run_buffer(order, drains, via_call_chain, falsy=False):
             for x in out[1]:
                 want = ("item", rnd, len(emitted))
                 if x != want:
-                    return "buffer-order", (f"order {order}, drains after positions {sorted(drains)}: emitted {x} where "
+                    return "buffer-order", (f"order {_o(order)}, drains after positions {sorted(drains)}: emitted {x} where "
                                             f"{want} was due (emitted so far {len(emitted)})")
                 if any(p not in arrived for p in range(x[2] + 1)):
                     return "buffer-order", f"emitted serial {x[2]} before all predecessors arrived"
@@ -81,7 +85,7 @@ def run_buffer(order, drains, via_call_chain, falsy=False):
                 while k in arrived:
                     k += 1
                 if len(emitted) != k:
-                    return "buffer-lost", (f"order {order}: after draining at position {pos} {len(emitted)} items are "
+                    return "buffer-lost", (f"order {_o(order)}: after draining at position {pos} {len(emitted)} items are "
                                            f"out but serials 0..{k - 1} have all arrived")
             if b.waiting_for() != len(emitted):
                 # between drains waiting_for equals the number emitted so far
@@ -93,10 +97,10 @@ def run_buffer(order, drains, via_call_chain, falsy=False):
             return "buffer-drain-raised", f"final drain raised {rest[1]}"
         for x in rest[1]:
             if x != ("item", rnd, len(emitted)):
-                return "buffer-order", f"order {order}: final drain emitted {x}, due {len(emitted)}"
+                return "buffer-order", f"order {_o(order)}: final drain emitted {x}, due {len(emitted)}"
             emitted.append(x)
         if len(emitted) != len(order):
-            return "buffer-lost", f"order {order}: {len(emitted)} of {len(order)} items emitted"
+            return "buffer-lost", f"order {_o(order)}: {len(emitted)} of {len(order)} items emitted"
         if order:
             late = outcome(lambda: b(0, "again"))
             if late != ("exc", "AttributeError"):
@@ -123,7 +127,7 @@ def _run_buffer_falsy(b, order, drains):
                 k += 1
             want = [val(x) for x in range(emitted, k)]
             if out[0] != "ok" or len(out[1]) != len(want) or any(type(a) is not type(w) or a != w for a, w in zip(out[1], want)):
-                return "buffer-falsy-items", (f"order {order}: drain after arrival #{pos} emitted {out}, expected {want!r} "
+                return "buffer-falsy-items", (f"order {_o(order)}: drain after arrival #{pos} emitted {out}, expected {want!r} "
                                               f"(items are None/0/''/()/False/0.0/[] by serial)")
             emitted = k
         if b.waiting_for() != emitted or len(b) != len(arrived) - emitted:
@@ -152,13 +156,13 @@ def run_print_buffer(order, drains, end, blank=False):
                 k += 1
             want_ret = k > nprinted
             if r != ("ok", want_ret):
-                return "print-return", f"order {order}: print({serial}) -> {r}, expected {want_ret}"
+                return "print-return", f"order {_o(order)}: print({serial}) -> {r}, expected {want_ret}"
             nprinted = k
             if pos in drains:
                 text = out.getvalue()
                 want = "".join(f"{txt(rnd, s)}{end}" for s in range(nprinted))
                 if text != want:
-                    return "print-order", f"order {order}: printed {text!r}, expected {want!r}"
+                    return "print-order", f"order {_o(order)}: printed {text!r}, expected {want!r}"
             if pb.waiting_for != nprinted:
                 return "print-counters", f"waiting_for={pb.waiting_for}, {nprinted} items printed"
             if len(pb) != len(arrived) - nprinted:
@@ -166,7 +170,7 @@ def run_print_buffer(order, drains, end, blank=False):
         text = out.getvalue()
         want = "".join(f"{txt(rnd, s)}{end}" for s in range(len(order)))
         if text != want:
-            return "print-order", f"order {order}: final text {text!r}, expected {want!r}"
+            return "print-order", f"order {_o(order)}: final text {text!r}, expected {want!r}"
         # documented flush: prints the held items ascending, waiting_for -> largest+1 (unchanged when empty)
         n = len(order)
         wf = pb.waiting_for
@@ -186,6 +190,53 @@ def run_print_buffer(order, drains, end, blank=False):
         pb.clear()
         if pb.waiting_for != 0 or len(pb) != 0 or out.getvalue() != want2:
             return "print-clear", f"clear(): waiting_for={pb.waiting_for}, len={len(pb)} or something was printed"
+    return None
+
+
+def run_print_flush_gap(order, flush_at):
+    """PrintBuffer with an intermediate flush() while a gap exists: flush prints what is held (ascending) and moves
+    waiting_for past it (documented); items that arrive later are stored ('stores that value for later') and must come
+    out at the next flush - every item exactly once, len() == number held."""
+    from windpyutils.buffers import PrintBuffer
+    out = io.StringIO()
+    pb = PrintBuffer(out, end="|")
+    held = {}
+    wf = 0
+    printed = []
+    for pos, serial in enumerate(order):
+        if pos == flush_at:
+            pb.flush()
+            for k in sorted(held):
+                printed.append(k)
+            if held:
+                wf = max(held) + 1
+            held = {}
+        r = pb.print(serial, f"<{serial}>")
+        if serial == wf:
+            printed.append(serial)
+            wf += 1
+            while wf in held:
+                printed.append(wf)
+                del held[wf]
+                wf += 1
+            want_ret = True
+        else:
+            held[serial] = True
+            want_ret = False
+        if r is not want_ret:
+            return "print-return", f"order {_o(order)}, flush before arrival #{flush_at}: print({serial}) -> {r}, expected {want_ret}"
+        if len(pb) != len(held) or pb.waiting_for != wf:
+            return "print-counters", (f"order {_o(order)}, flush before arrival #{flush_at}: after print({serial}) len={len(pb)} "
+                                      f"waiting_for={pb.waiting_for}; {len(held)} items are held, next serial due {wf}")
+    pb.flush()
+    printed += sorted(held)
+    text = out.getvalue()
+    want = "".join(f"<{k}>|" for k in printed)
+    if text != want:
+        return "print-order", (f"order {_o(order)}, flush before arrival #{flush_at}: printed {text!r}, documented behaviour gives "
+                               f"{want!r}")
+    if sorted(printed) != list(range(len(order))):
+        raise AssertionError("reference model lost an item")
     return None
 
 
@@ -237,6 +288,10 @@ def run_shard(spec):
             for p in itertools.permutations(range(n)):
                 yield list(p)
         rng = common.rng_for(PROP, seed, "long")
+        # very long held-back runs: the first item arrives last (a slow first worker), deeper than any recursion limit
+        for n in ((1500, 5000) if tier == "quick" else (1500, 5000, 20000)):
+            yield list(range(1, n)) + [0]
+            yield list(range(n - 1, -1, -1))
         for _ in range(300 if tier == "quick" else 3000):
             n = rng.choice([9, 12, 20, 50, 100, 200])
             p = list(range(n))
@@ -259,7 +314,7 @@ def run_shard(spec):
         rng = common.rng_for(PROP, seed, "drain", idx)
         for mode in (0, 1, 2):
             drains = drain_points(len(order), mode, rng)
-            with instr.budget(5_000_000):
+            with instr.budget(5_000_000 + 400 * len(order)):
                 try:
                     bad = run_buffer(order, drains, via_call_chain=(mode != 1 and idx % 2 == 0))
                     res.evaluations += 1
@@ -285,10 +340,18 @@ def run_shard(spec):
                             report(bad, {"what": "print-blank", "order": order, "drains": sorted(drains),
                                          "end": ["\n", "", "|"][mode]})
                 except instr.StepBudgetExceeded:
-                    report(("operation-does-not-end", f"order {order}: statement budget exceeded"),
+                    report(("operation-does-not-end", f"order {_o(order)}: statement budget exceeded"),
                            {"what": "buffer", "order": order, "drains": sorted(drains), "chain": False})
             if len(order) >= 2:
                 res.seen(("b", tuple(order) if len(order) <= 12 else common.h64(order), tuple(sorted(drains))[:12]))
+        if 2 <= len(order) <= 6:
+            for fa in range(1, len(order)):
+                with instr.budget(5_000_000):
+                    bad = run_print_flush_gap(order, fa)
+                res.evaluations += 1
+                res.count("print_buffer_runs_with_intermediate_flush")
+                if bad:
+                    report(bad, {"what": "print-gap", "order": order, "flush_at": fa})
         if idx % 1999 == 0:
             res.sample({"arrival_order": order[:20], "drain_modes": ["after every arrival", "only at end", "random subset"]})
 
@@ -323,6 +386,8 @@ def replay(doc):
     c = doc["replay"]["case"]
     if c["what"] == "buffer":
         bad = run_buffer(c["order"], set(c["drains"]), c["chain"])
+    elif c["what"] == "print-gap":
+        bad = run_print_flush_gap(c["order"], c["flush_at"])
     elif c["what"] == "buffer-falsy":
         bad = run_buffer(c["order"], set(c["drains"]), False, falsy=True)
     elif c["what"] in ("print", "print-blank"):
